@@ -2,7 +2,7 @@
 From Coq Require Import List Arith QArith Reals Qreals.
 From BZ Require Import Base.Ops Base.RInst Model.Curve Model.AreaPoly Gen.PyTriangleHelpers Theory.AreaTheory.
 From Coq Require Import Bool.
-From BZ Require Import Model.CurvePy Gen.F90Const Theory.Twins.
+From BZ Require Import Model.CurvePy Gen.F90Const Theory.Twins Theory.AreaTranslate.
 Import ListNotations.
 
 (* shoelace_for_area (triples and scale factor read from the source) IS the Green boundary integral
@@ -38,3 +38,21 @@ Theorem C12_compiled_shoelace_closed_forms_are_the_python_tables :
   /\ map fst f90_shoelace_closed_forms = map fst shoelace_dispatch.
 Proof. exact compiled_shoelace_closed_forms_are_the_python_tables. Qed.
 Print Assumptions C12_compiled_shoelace_closed_forms_are_the_python_tables.
+
+(* the area does not depend on where the shape sits: translating every edge of a CLOSED chain of edges (each edge starts where
+   the previous one ended, the last ends where the first started; supported degrees) by one vector leaves the sum of the edge
+   integrals unchanged.  A single edge is not invariant - its integral changes by (a dy - b dx)/2 over the edge - so this is a
+   statement about closed boundaries, which is what compute_area is given *)
+Theorem C12_area_of_a_closed_boundary_is_translation_invariant : forall (a b : R) (edges : list edge) (p : R * R),
+  Forall ok_edge edges -> chain p edges p -> area_sum (map (shift a b) edges) = area_sum edges.
+Proof. exact closed_boundary_area_is_translation_invariant. Qed.
+Print Assumptions C12_area_of_a_closed_boundary_is_translation_invariant.
+(* non-vacuity: the boundary of the unit triangle as three linear edges is a closed chain of supported edges *)
+Example C12_closed_chain_example :
+  let edges := [([0; 1], [0; 0]); ([1; 0], [0; 1]); ([0; 0], [1; 0])]%R in
+  Forall ok_edge edges /\ chain (0, 0)%R edges (0, 0)%R.
+Proof.
+  cbv zeta. split.
+  - repeat constructor; cbn; auto with arith.
+  - repeat (eapply chain_cons; [reflexivity|]); cbn [end_pt fst snd last]. apply chain_nil.
+Qed.
